@@ -2,12 +2,13 @@
 // can observe.
 //   input :  case <id> <host arguments: decimal integers>
 //            S <hex of the script source>          (one line per concrete layout of the program)
+//            T <hex of the script source>          (trace mode: `level.v0 = <constant integer expression>`)
 //            end
 //   output:  case <id>
 //            k <n>                                 (n-th source of the case)
 //            compile-error <text> | exception <text>
 //            o <escaped text printed through println>
-//            r <value given to `end` by the main thread: nil | int n | str s | arr n | carr n | other t>
+//            r <value given to `end` by the main thread: nil | int n | str s | flt text | arr n | carr n | other t>
 //            v <L|G|P><i> <value>                  level.v0..7, game.v0..3, parm.v0..1 after the run
 //            w <escaped warnings/errors>           only when the engine reported a script error
 //            notidle                               only when the engine is not idle after 50 frames
@@ -16,6 +17,8 @@
 #include <morfuse/Script/Level.h>
 #include <morfuse/Script/Game.h>
 #include <morfuse/Script/Parm.h>
+#include <morfuse/Script/ScriptOpcodes.h>
+#include <morfuse/Script/ProgramScript.h>
 #include <cstdio>
 using namespace mfuse;
 
@@ -48,6 +51,7 @@ static std::string repr(const ScriptVariable* v)
     case variableType_e::Integer: return "int " + std::to_string((long long)v->GetData().long64Value);
     case variableType_e::String:
     case variableType_e::ConstString: return "str " + escape(v->stringValue().c_str());
+    case variableType_e::Float: return "flt " + escape(v->stringValue().c_str());
     case variableType_e::Array: return "arr " + std::to_string(v->size());
     case variableType_e::ConstArray: return "carr " + std::to_string(v->size());
     default: return std::string("other ") + v->GetTypeName();
@@ -94,6 +98,72 @@ static void runSource(int k, const std::string& src, const std::vector<long long
     e.director().Reset();
 }
 
+// ---- instruction trace of constant integer expressions (tie of coq/C03/Compile.v to the compiler)
+static std::vector<size_t> g_offsets;
+static const void* g_firstVm = nullptr;
+static void stepHook(const void* vm, size_t codeOffset, size_t, size_t)
+{
+    if (!g_firstVm) g_firstVm = vm;
+    if (vm == g_firstVm) g_offsets.push_back(codeOffset);
+}
+
+static const char* binName(unsigned op)
+{
+    switch (op) {
+    case OP_BIN_PLUS: return "add"; case OP_BIN_MINUS: return "sub"; case OP_BIN_MULTIPLY: return "mul";
+    case OP_BIN_DIVIDE: return "div"; case OP_BIN_PERCENTAGE: return "mod"; case OP_BIN_BITWISE_AND: return "band";
+    case OP_BIN_BITWISE_OR: return "bor"; case OP_BIN_BITWISE_EXCL_OR: return "bxor"; case OP_BIN_SHIFT_LEFT: return "shl";
+    case OP_BIN_SHIFT_RIGHT: return "shr"; case OP_BIN_EQUALITY: return "eq"; case OP_BIN_INEQUALITY: return "ne";
+    case OP_BIN_LESS_THAN: return "lt"; case OP_BIN_LESS_THAN_OR_EQUAL: return "le"; case OP_BIN_GREATER_THAN: return "gt";
+    case OP_BIN_GREATER_THAN_OR_EQUAL: return "ge";
+    default: return nullptr;
+    }
+}
+
+// executes `src` and prints the executed opcodes up to the first one outside the fragment:
+//   t I<n>:<operand as unsigned decimal> | NEG | CPL | <binary operator> ... then v L0 <value>
+static void traceSource(const std::string& src)
+{
+    vh::Engine e(true, true, false, true);
+    const ProgramScript* scr = nullptr;
+    try { scr = e.compile("c03t", src); } catch (std::exception& ex) { std::printf("compile-error %s\n", escape(ex.what()).c_str()); return; }
+    if (!scr) { std::printf("compile-error null\n"); return; }
+    g_offsets.clear();
+    g_firstVm = nullptr;
+    mfuse::verif::vmStepHook = &stepHook;
+    try { e.director().ExecuteThread(scr); } catch (...) { std::printf("exception\n"); }
+    mfuse::verif::vmStepHook = nullptr;
+    const opval_t* code = scr->GetProgBuffer();
+    const size_t len = scr->GetProgLength();
+    std::string out = "t";
+    for (size_t off : g_offsets) {
+        if (off >= len) break;
+        const unsigned op = code[off];
+        unsigned long long operand = 0;
+        int width = -1;
+        switch (op) {
+        case OP_STORE_INT0: width = 0; break; case OP_STORE_INT1: width = 1; break; case OP_STORE_INT2: width = 2; break;
+        case OP_STORE_INT3: width = 3; break; case OP_STORE_INT4: width = 4; break; case OP_STORE_INT8: width = 8; break;
+        default: break;
+        }
+        char buf[64];
+        if (width >= 0) {
+            if (off + 1 + (size_t)width > len) break;
+            for (int i = width - 1; i >= 0; --i) operand = (operand << 8) | code[off + 1 + i];   // little endian host
+            std::snprintf(buf, sizeof buf, " I%d:%llu", width, operand);
+            out += buf;
+        } else if (op == OP_UN_MINUS) out += " NEG";
+        else if (op == OP_UN_COMPLEMENT) out += " CPL";
+        else if (binName(op)) { out += " "; out += binName(op); }
+        else break;
+    }
+    std::printf("%s\n", out.c_str());
+    std::printf("v L0 %s\n", repr(e.ctx->GetLevel()->Vars()->GetVariable(str("v0"))).c_str());
+    const std::string w = e.io.warn.str() + e.io.err.str();
+    if (!w.empty()) std::printf("w %s\n", escape(w).c_str());
+    e.director().Reset();
+}
+
 int main()
 {
     vh::globalStreamsToStderr();
@@ -111,6 +181,9 @@ int main()
         for (const std::string& line : ops) {
             if (line.rfind("S ", 0) == 0) {
                 runSource(k++, unhex(line.substr(2)), args);
+                std::fflush(stdout);
+            } else if (line.rfind("T ", 0) == 0) {
+                traceSource(unhex(line.substr(2)));
                 std::fflush(stdout);
             }
         }
